@@ -52,6 +52,11 @@ type C05Case struct {
 	Force int64 `json:"force_ns,omitempty"`
 	// Pad: header_extra_padding_block
 	Pad bool `json:"pad,omitempty"`
+	// OddNames: the configured instance names contain characters that are replaced in file names
+	// ("i0.site_x" is stored as "i0-site-x"): everything that compares instance names must agree
+	OddNames bool `json:"odd_names,omitempty"`
+	// Dup (shadow mode): the third application DBI is a duplicate-keys DBI (MDB_DUPSORT, dupsort_hack on)
+	Dup bool `json:"dup,omitempty"`
 }
 
 type c05Fleet struct {
@@ -206,14 +211,19 @@ func (f *c05Fleet) conf(i int) (config.Config, config.LMDB) {
 	conf.MemoryDownloadedSnapshots = 4
 	conf.Storage.Cleanup = config.Cleanup{Enabled: true, Interval: time.Hour, MustKeepInterval: time.Duration(f.c.MustKeep), RemoveOldInstancesInterval: time.Duration(f.c.RemoveOld)}
 	conf.StorageForceSnapshotInterval = time.Duration(f.c.Force)
-	return conf, config.LMDB{SchemaTracksChanges: f.c.Native, HeaderExtraPaddingBlock: f.c.Pad}
+	return conf, config.LMDB{SchemaTracksChanges: f.c.Native, HeaderExtraPaddingBlock: f.c.Pad, DupSortHack: f.c.Dup && !f.c.Native}
 }
 
 func newC05Fleet(c C05Case) (*c05Fleet, error) {
 	f := &c05Fleet{c: c, b: fault.NewBucket(), now: time.Now(), present: map[string]bool{}, decoded: map[string]map[string]map[string]Ver{}, joinTS: map[string]uint64{}, ownPrev: map[string]string{}}
 	for i := 0; i < c.N; i++ {
 		conf, lc := f.conf(i)
-		nd := NewNode(conf.Instance, lm.New(64<<20, 24), f.b.Handle(conf.Instance), conf, lc, syncer.Options{})
+		name := conf.Instance // (as it appears in file names, at yield points and in the bucket log)
+		if c.OddNames {
+			conf.Instance = fmt.Sprintf("i%d.site_x", i)
+			name = fmt.Sprintf("i%d-site-x", i)
+		}
+		nd := NewNode(name, lm.New(64<<20, 24), f.b.Handle(name), conf, lc, syncer.Options{})
 		f.nodes = append(f.nodes, nd)
 	}
 	return f, nil
@@ -290,11 +300,19 @@ func (f *c05Fleet) appCommitHold(i int, changes []SChange, hold func()) error {
 		for _, ch := range changes {
 			dbiName := fleetDBIs[ch.DBI%len(fleetDBIs)]
 			key := fleetKeys[ch.Key%len(fleetKeys)]
-			dbi, err := txn.OpenDBI(dbiName, lmdb.Create)
+			fl := uint(lmdb.Create)
+			isDup := f.c.Dup && !f.c.Native && ch.DBI%len(fleetDBIs) == 2
+			if isDup {
+				fl |= lmdb.DupSort
+			}
+			dbi, err := txn.OpenDBI(dbiName, fl)
 			if err != nil {
 				return err
 			}
 			del := ch.Op == "del"
+			if isDup && !del && len(ch.Val) == 0 {
+				ch.Val = model.Bytes("d")
+			}
 			if f.c.Native {
 				// the application stamps the shared clock: later than anything it overwrites
 				ts := uint64(time.Now().UnixNano())
@@ -308,6 +326,21 @@ func (f *c05Fleet) appCommitHold(i int, changes []SChange, hold func()) error {
 					fl, val = 1, nil
 				}
 				if err := txn.Put(dbi, key, model.BuildHeader(ts, uint64(txn.ID()), fl, nil, val), 0); err != nil {
+					return err
+				}
+			} else if del && isDup {
+				// all pairs of that key (lmdb-go passes zero-length data, not NULL, to mdb_del: use a cursor)
+				cur, err := txn.OpenCursor(dbi)
+				if err != nil {
+					return err
+				}
+				if _, _, err := cur.Get(key, nil, lmdb.Set); err == nil {
+					err = cur.Del(lmdb.NoDupData)
+				} else if lmdb.IsNotFound(err) {
+					err = nil
+				}
+				cur.Close()
+				if err != nil {
 					return err
 				}
 			} else if del {
@@ -502,6 +535,8 @@ func checkC05(c C05Case, o *vcore.Obs) error {
 	o.ClassIf(f.stats.soleCopyAtRisk, "sole-published-copy-at-risk")
 	o.ClassIf(c.Native, "native")
 	o.ClassIf(!c.Native, "shadow")
+	o.ClassIf(c.OddNames, "instance-names-changed-by-sanitising")
+	o.ClassIf(c.Dup, "duplicate-keys-dbi")
 	o.Class(fmt.Sprintf("bucket-mutations-%d", min(f.stats.mutations/5*5, 30)))
 	for i := 0; i < c.ExcludedEmpty; i++ {
 		o.Excluded("shadow-empty-value")
@@ -518,6 +553,8 @@ func genC05(t *rapid.T) C05Case {
 	c.Pad = rapid.IntRange(0, 3).Draw(t, "pad") == 0
 	// periodic forced snapshots: off, always overdue, or falling due in real time while the loop is stepped
 	c.Force = rapid.SampledFrom([]int64{0, 0, 0, 1, int64(20 * time.Millisecond)}).Draw(t, "force")
+	c.OddNames = rapid.IntRange(0, 3).Draw(t, "odd_names") == 0
+	c.Dup = !c.Native && rapid.IntRange(0, 2).Draw(t, "dup") == 0
 	lc := LoopCase{Native: c.Native}
 	n := rapid.IntRange(4, 25).Draw(t, "nops")
 	for k := 0; k < n; k++ {
@@ -526,7 +563,11 @@ func genC05(t *rapid.T) C05Case {
 		switch op.Kind {
 		case "app":
 			for j := 0; j < rapid.IntRange(1, 2).Draw(t, "nch"); j++ {
-				op.Changes = append(op.Changes, genSChange(t, &lc, 3))
+				ch := genSChange(t, &lc, 3)
+				if c.Dup && rapid.IntRange(0, 2).Draw(t, "dupdbi") == 0 {
+					ch.DBI = 2
+				}
+				op.Changes = append(op.Changes, ch)
 			}
 			op.Held = rapid.IntRange(0, 3).Draw(t, "held") == 0
 		case "step":
